@@ -8,8 +8,21 @@ Open Scope Z_scope.
 
 (* ---------- the checks that are evaluated (vm_compute) against the generated tables ---------- *)
 Definition by_name (n : string) : outcome cal := get_calendar_by_name (str_of_string n).
-Definition all_days : list Z := cal_date_range d1970 d2200.
 Definition is_wd5 (d : Z) : bool := weekday d <? 5.
+
+(* Evaluation in windows: `forall d in a..b, Q s d` where s is the start of the 1024-day window containing d.
+   Q s is evaluated once per window (it restricts the tables to the window, so that the per-date look-ups are short);
+   Proofs/RulesP.v lifts `forall_chunked a b Q = true` to every date of a..b and removes the restriction again. *)
+Definition chunk_len : Z := 1024.
+Definition within (d0 cnt h : Z) : bool := (d0 <=? h) && (h <? d0 + cnt).
+Definition restrict (c : cal) (d0 cnt : Z) : cal := mkCal (c_mask c) (filter (within d0 cnt) (c_hols c)).
+Definition forall_chunked (a b : Z) (Q : Z -> Z -> bool) : bool :=
+  forallb (fun k => let s := a + k * chunk_len in let q := Q s in
+             forallb (fun d => if d <=? b then q d else true) (cal_range_f (Z.to_nat chunk_len) s))
+          (cal_range_f (Z.to_nat ((b - a) / chunk_len + 1)) 0).
+
+Definition mask_is_sat_sun (c : cal) : bool :=
+  forallb (fun v => zmem v [5; 6]) (c_mask c) && forallb (fun v => zmem v (c_mask c)) [5; 6].
 
 (* a fully published calendar: the name resolves, the week mask is Sat+Sun, and on every weekday of
    1970-2200 the table says holiday exactly when the rules do *)
@@ -17,33 +30,33 @@ Definition full_agree (c : cal) (rs : list hrule) (d : Z) : bool :=
   if is_wd5 d then Bool.eqb (cal_is_holiday c d) (rules_hit rs d) else true.
 Definition full_check (nr : string * list hrule) : bool :=
   match by_name (fst nr) with
-  | Ok c => forallb (fun v => zmem v [5; 6]) (c_mask c) && forallb (fun v => zmem v (c_mask c)) [5; 6] &&
-            forallb (full_agree c (snd nr)) all_days
+  | Ok c => mask_is_sat_sun c &&
+            forall_chunked d1970 d2200 (fun s => let c' := restrict c s chunk_len in full_agree c' (snd nr))
   | _ => false
   end.
 (* a partially published calendar: every weekday hit by a documented rule is a holiday *)
 Definition partial_agree (c : cal) (rs : list hrule) (d : Z) : bool :=
-  if is_wd5 d && rules_hit rs d then cal_is_holiday c d else true.
+  if is_wd5 d then (if rules_hit rs d then cal_is_holiday c d else true) else true.
 Definition partial_check (nr : string * list hrule) : bool :=
   match by_name (fst nr) with
-  | Ok c => forallb (fun v => zmem v [5; 6]) (c_mask c) && forallb (fun v => zmem v (c_mask c)) [5; 6] &&
-            forallb (partial_agree c (snd nr)) all_days
+  | Ok c => mask_is_sat_sun c &&
+            forall_chunked d1970 d2200 (fun s => let c' := restrict c s chunk_len in partial_agree c' (snd nr))
   | _ => false
   end.
-(* fed = nyc without Good Friday *)
-Definition is_good_friday (d : Z) : bool := d =? easter (year_of d) - 2.
+(* fed = nyc without Good Friday (the Friday before Easter Sunday of the computus) *)
+Definition is_good_friday (d : Z) : bool := kind_hit good_friday (dctx_of d).
 Definition fed_nyc_agree (f n : cal) (d : Z) : bool :=
   if is_wd5 d then Bool.eqb (cal_is_holiday f d) (cal_is_holiday n d && negb (is_good_friday d)) else true.
 Definition fed_nyc_check : bool :=
   match by_name "fed", by_name "nyc" with
-  | Ok f, Ok n => forallb (fed_nyc_agree f n) all_days
+  | Ok f, Ok n => forall_chunked d1970 d2200 (fun s => let f' := restrict f s chunk_len in let n' := restrict n s chunk_len in
+                                                        fed_nyc_agree f' n')
   | _, _ => false
   end.
 (* 'all' and 'bus' *)
 Definition all_bus_check : bool :=
   match by_name "all", by_name "bus" with
-  | Ok a, Ok b => match c_hols a, c_mask a, c_hols b with [], [], [] => true | _, _, _ => false end &&
-                  forallb (fun v => zmem v [5; 6]) (c_mask b) && forallb (fun v => zmem v (c_mask b)) [5; 6]
+  | Ok a, Ok b => match c_hols a, c_mask a, c_hols b with [], [], [] => true | _, _, _ => false end && mask_is_sat_sun b
   | _, _ => false
   end.
 (* documented names resolve *)
@@ -57,11 +70,7 @@ Definition fix_check (p : string * (string * list Z)) : bool :=
   let '(_, (nm, fx)) := p in
   match by_name nm with
   | Ok c => negb (match fx with [] => true | _ => false end) &&
-            forallb (fix_agree c fx) (cal_date_range (zmin_list fx) (zmax_list fx))
+            forall_chunked (zmin_list fx) (zmax_list fx)
+              (fun s => let c' := restrict c s chunk_len in let fx' := filter (within s chunk_len) fx in fix_agree c' fx')
   | _ => false
   end.
-
-(* evaluation aid for Run/RunNamed.v: the calendar restricted to the holidays inside a date window; it answers like the
-   full calendar for every date of the window (Proofs/RulesP.restrict_spec), with a table look-up that is ~100x shorter *)
-Definition restrict (c : cal) (d0 cnt : Z) : cal :=
-  mkCal (c_mask c) (filter (fun h => (d0 <=? h) && (h <? d0 + cnt)) (c_hols c)).
